@@ -416,6 +416,17 @@ def make_cases(ctx):
                            'variants': None, 'base': False,
                            'body': [{'cls': 'Out', 'meth': 'kr', 'args': [{'k': 0}, {'p': 1, 'pick': 0, 'need': 'raw'}]}]}, expect=exp)
 
+    # definitions that BUILD but cannot be WRITTEN (a value that does not fit a float32, a non-numeric variant
+    # value, ...): as_bytes() must raise, and raise again when it is called again on the same object
+    for tag_, kw in (('default', {'params': [{'name': 'big', 'default': 1e40, 'annot': None}]}),
+                     ('array-default', {'params': [{'name': 'arr', 'default': [1.0, -1e39, 2.0], 'annot': 'ir'}]}),
+                     ('variant-value', {'params': [{'name': 'freq', 'default': 440, 'annot': None}], 'variants': [['a', [['freq', 1e40]]]]}),
+                     ('variant-str', {'params': [{'name': 'freq', 'default': 440, 'annot': None}], 'variants': [['a', [['freq', 'abc']]]]}),
+                     ('lag', {'params': [{'name': 'freq', 'default': 440, 'annot': None, 'lag': 1e40}]})):
+        p = fixed_prog(rng, 'uw')
+        p.update(kw)
+        add('unwritable', p, expect='raise', label='unwritable:' + tag_)
+
     # (b) names: boundary lengths, non-ASCII
     small = lambda: fixed_prog(rng)
     for n in [0, 1, 2, 31, 32, 33, 127, 128, 254, 255, 255, 256, 257, 300, 1000]:
@@ -648,7 +659,10 @@ def cb(s):
 
 def f32w(x):
     import struct
-    return struct.unpack('>I', struct.pack('>f', x))[0]
+    try:
+        return struct.unpack('>I', struct.pack('>f', x))[0]
+    except (OverflowError, struct.error, TypeError):
+        return 0x7fc00001
 
 
 def c_desc(d):
@@ -874,6 +888,29 @@ def correspond(ctx):
                 c.failures.append(Failure('correspondence', 'definition %r was emitted with %s' % (
                     k['name'][:30], 'a NaN constant' if nanw else 'a non-wire input on %s' % nonwire[0]),
                     found_input=True, theorem='invalid_rejected', replay={'case': short(k), 'bytes': o['bytes']}))
+        for what, how, val in o.get('retry') or []:
+            if how == 'returned' and what == 'as_bytes':
+                rb = bytes.fromhex(val)
+                why_r = oracle.check_bytes(rb)
+                c.failures.append(Failure(
+                    'correspondence',
+                    'definition %r: as_bytes() raised (%s) and the SAME call repeated returned %d bytes%s' % (
+                        k['name'][:30], (o['exc'] or ['?'])[0][:80], len(rb),
+                        (' that are not a definition: ' + why_r) if why_r else ' (a complete definition)'),
+                    found_input=True, theorem='invalid_rejected',
+                    replay={'case': short(k), 'bytes': val, 'observed': 'second as_bytes() returned bytes', 'first_call': o['exc'],
+                            'expected': 'the second call raises like the first one'}))
+                break
+            if how == 'returned' and what == 'add':
+                c.failures.append(Failure('correspondence', 'definition %r: as_bytes() raised (%s) but add() on the same object succeeded' % (
+                    k['name'][:30], (o['exc'] or ['?'])[0][:80]), found_input=True, replay={'case': short(k)}))
+                break
+            if how == 'leak':
+                c.failures.append(Failure('correspondence', 'definition %r: %s left set after a failing %s' % (k['name'][:30], val, what),
+                                          found_input=True, replay={'case': short(k)}))
+                break
+        if o.get('retry'):
+            c.count('failed-as_bytes-retried')
         for msg in o.get('cache') or []:
             c.failures.append(Failure('correspondence', 'as_bytes() caching / aliasing, definition %r: %s' % (k['name'][:30], msg),
                                       found_input=True, replay={'case': short(k), 'observed': msg}))
